@@ -208,7 +208,7 @@ def main():
     print("claimed:", sorted(CLAIMED), "pending:", [x["property_id"] for x in na])
 
 
-HOOK_COMMITS = []
+HOOK_COMMITS = ["0975607"]
 
 if __name__ == "__main__":
     main()
